@@ -222,3 +222,108 @@ func Title(s string) string {
 	}
 	return strings.ToUpper(s[:1]) + s[1:]
 }
+
+// Clone returns a structural deep copy of v made by reflection only (no encoding round trip, no method of the
+// copied types is called), so that it can serve as a reference even if encoding a value changes the value.
+func Clone(v any) any {
+	if v == nil {
+		return nil
+	}
+	return cloneV(reflect.ValueOf(v)).Interface()
+}
+
+func cloneV(v reflect.Value) reflect.Value {
+	switch v.Kind() {
+	case reflect.Ptr:
+		if v.IsNil() {
+			return v
+		}
+		p := reflect.New(v.Type().Elem())
+		p.Elem().Set(cloneV(v.Elem()))
+		return p
+	case reflect.Interface:
+		if v.IsNil() {
+			return v
+		}
+		n := reflect.New(v.Type()).Elem()
+		n.Set(cloneV(v.Elem()))
+		return n
+	case reflect.Struct:
+		n := reflect.New(v.Type()).Elem()
+		n.Set(v) // unexported fields are copied shallowly
+		for i := 0; i < v.NumField(); i++ {
+			if n.Field(i).CanSet() {
+				n.Field(i).Set(cloneV(v.Field(i)))
+			}
+		}
+		return n
+	case reflect.Slice:
+		if v.IsNil() {
+			return v
+		}
+		n := reflect.MakeSlice(v.Type(), v.Len(), v.Len())
+		for i := 0; i < v.Len(); i++ {
+			n.Index(i).Set(cloneV(v.Index(i)))
+		}
+		return n
+	case reflect.Array:
+		n := reflect.New(v.Type()).Elem()
+		for i := 0; i < v.Len(); i++ {
+			n.Index(i).Set(cloneV(v.Index(i)))
+		}
+		return n
+	case reflect.Map:
+		if v.IsNil() {
+			return v
+		}
+		n := reflect.MakeMapWithSize(v.Type(), v.Len())
+		for _, k := range v.MapKeys() {
+			n.SetMapIndex(cloneV(k), cloneV(v.MapIndex(k)))
+		}
+		return n
+	}
+	return v
+}
+
+// Plain renders v as nested maps / slices / scalars (pointers followed) for printing without any encoder.
+func Plain(v any) any {
+	if v == nil {
+		return nil
+	}
+	return plainV(reflect.ValueOf(v))
+}
+
+func plainV(v reflect.Value) any {
+	switch v.Kind() {
+	case reflect.Ptr, reflect.Interface:
+		if v.IsNil() {
+			return nil
+		}
+		return plainV(v.Elem())
+	case reflect.Struct:
+		m := map[string]any{}
+		for i := 0; i < v.NumField(); i++ {
+			if v.Type().Field(i).IsExported() {
+				if x := plainV(v.Field(i)); x != nil {
+					m[v.Type().Field(i).Name] = x
+				}
+			}
+		}
+		return m
+	case reflect.Slice, reflect.Array:
+		if v.Kind() == reflect.Slice && v.IsNil() {
+			return nil
+		}
+		var l []any
+		for i := 0; i < v.Len(); i++ {
+			l = append(l, plainV(v.Index(i)))
+		}
+		return l
+	case reflect.String:
+		return v.String()
+	}
+	if v.CanInterface() {
+		return v.Interface()
+	}
+	return fmt.Sprint(v)
+}
